@@ -135,7 +135,13 @@ class TaskGroup(AbstractTaskGroup):
         *args: *_T_PosArgs,
         name: str | None = None,
     ) -> None:
-        _ = self.__asyncio_tg.create_task(coro_func(*args), name=name)
+        coroutine = coro_func(*args)
+        try:
+            _ = self.__asyncio_tg.create_task(coroutine, name=name)
+        except BaseException:
+            # e.g. the task group is shutting down (asyncio closes the coroutine itself since Python 3.13)
+            coroutine.close()
+            raise
 
     async def start(
         self,
